@@ -1,5 +1,5 @@
 from .. import facts
-from ..rules import glyph
+from ..rules import glyph, image
 
 
 def run(ck):
@@ -9,3 +9,4 @@ def run(ck):
     glyph.r2_counters_pair(ck, P)
     glyph.r3_index_bounds(ck, P)
     glyph.r4_insert_protocol(ck, P)
+    image.r15_6_free_while_linked(ck, P)
